@@ -159,3 +159,67 @@ Print Assumptions C17_opts_set_others.
 Theorem C17_opts_delete_gone : forall l keys x, In x (opts_remove l keys) -> keyed keys x = false.
 Proof. exact opts_remove_gone. Qed.
 Print Assumptions C17_opts_delete_gone.
+
+(* Nested modified nodes (a call and an array inside it): apply_changes splices only the
+   outermost ones.  Nothing is dropped - every modified node is a kept one or lies inside a kept
+   one, which is re-printed as a whole ... *)
+Theorem C17_outermost_covers : forall es x, In x es ->
+  exists y, In y (outermost es) /\ (x = y \/ is_inside x y = true).
+Proof. exact outermost_covers. Qed.
+Print Assumptions C17_outermost_covers.
+(* ... the kept extents of a laminar family (nested or disjoint, as node extents are) are pairwise
+   disjoint ... *)
+Theorem C17_outermost_disjoint : forall es x y, laminar es ->
+  In x (outermost es) -> In y (outermost es) -> x = y \/ ends_before x y \/ ends_before y x.
+Proof. exact outermost_disjoint. Qed.
+Print Assumptions C17_outermost_disjoint.
+(* ... and so the whole of apply_changes' replacement step, filter and descending sort included,
+   changes only text inside the kept extents: it equals [splice] (C17_splice_local). *)
+Theorem C17_splice_outermost_local : forall text es,
+  laminar es -> (forall x, In x es -> nonempty x) -> NoDup es ->
+  monotone_on (line_offsets text) es ->
+  (forall x, In x es -> pos_offset (line_offsets text) (e_el x) (e_ec x) <= length text) ->
+  apply_edits text es =
+  splice 0 text (rev (map (edit_off (line_offsets text)) (sort_desc (outermost es)))).
+Proof. exact splice_outermost_local. Qed.
+Print Assumptions C17_splice_outermost_local.
+
+(* rm_target of an assigned target `name = call(...)`: exactly the statement and the white space
+   after it are removed - the text before it and everything from the next non-blank character
+   on is kept, also when nothing follows (the former IndexError). *)
+Theorem C17_rm_assign_exact : forall (pre name ws1 value ws2 rest : list N),
+  (forall c, In c name -> c <> 61%N) -> forallb is_ws ws1 = true -> forallb is_ws ws2 = true ->
+  match rest with c :: _ => is_ws c = false | [] => True end ->
+  rm_assign (pre ++ name ++ 61%N :: ws1 ++ value ++ ws2 ++ rest)
+            (length pre) (length (pre ++ name ++ 61%N :: ws1)) (length (pre ++ name ++ 61%N :: ws1) + length value)
+  = pre ++ rest.
+Proof. exact rm_assign_exact. Qed.
+Print Assumptions C17_rm_assign_exact.
+
+(* For the extents of real nodes the premises about offsets are theorems: positions the lexer
+   records are ordered like the offsets they denote (with C17_extent_offset), so for every
+   laminar family of distinct, non-empty extents whose end points are positions of the text
+   the replacement step of apply_changes changes only text inside the outermost extents. *)
+Theorem C17_splice_outermost_nodes : forall text es,
+  laminar es -> NoDup es ->
+  (forall x, In x es -> at_prefix text (e_sl x) (e_sc x) /\ at_prefix text (e_el x) (e_ec x) /\ nonempty x) ->
+  apply_edits text es =
+  splice 0 text (rev (map (edit_off (line_offsets text)) (sort_desc (outermost es)))).
+Proof. exact splice_outermost_nodes. Qed.
+Print Assumptions C17_splice_outermost_nodes.
+
+(* "all rewriter commands and short command sequences": for EVERY sequence of add / rm commands a
+   file none of them names is a source afterwards iff it was one before ... *)
+Theorem C17_src_sequence_frame : forall sort, (forall l, Permutation (sort l) l) ->
+  forall ops old x, (forall o, In o ops -> ~ In x (op_files o)) ->
+  (In x (fold_left (apply_src sort) ops old) <-> In x old).
+Proof. exact src_sequence_frame. Qed.
+Print Assumptions C17_src_sequence_frame.
+(* ... and for every sequence of kwargs set / delete commands the keyword arguments they do not
+   address keep their values and their order. *)
+Theorem C17_kw_sequence_frame : forall V (ops : list (kw_op V)) (d : kws V) (ks : list str),
+  (forall o, In o ops -> In (kw_op_key o) ks) ->
+  fold_right (fun k acc => kw_others V k acc) (fold_left apply_kw ops d) ks =
+  fold_right (fun k acc => kw_others V k acc) d ks.
+Proof. intros V. exact (@kw_sequence_frame V). Qed.
+Print Assumptions C17_kw_sequence_frame.
